@@ -12,7 +12,8 @@ TInit == l = 1 /\ holder = 0 /\ nextf = 0 /\ lastc = [t \in 1..64 |-> 0]
 TNext == /\ l <= Len(Rec)
          /\ LET e == Rec[l] IN
             /\ e.t >= 1 /\ e.t <= 64
-            /\ IF e.f = 1 THEN holder = 0 /\ e.c > lastc[e.t]                      \* Acquire ; first fragment
+            \* (thread numbers above 32 carry records that are compile-time literals - the same record, call number 1, every time)
+            /\ IF e.f = 1 THEN holder = 0 /\ (IF e.t > 32 THEN e.c >= lastc[e.t] ELSE e.c > lastc[e.t])   \* Acquire ; first fragment
                ELSE holder = e.t /\ nextf = e.f /\ e.c = lastc[e.t]               \* the call in progress continues
             /\ lastc' = [lastc EXCEPT ![e.t] = e.c]
             /\ IF e.f = e.n THEN holder' = 0 /\ nextf' = 0 ELSE holder' = e.t /\ nextf' = e.f + 1
